@@ -250,7 +250,21 @@ def meshgrid(*xi, indexing="xy", **kw):
     arrs = [asarray(x).flatten() for x in xi]
     n = len(arrs)
     shape = [a.size for a in arrs]
+    sparse = kw.pop("sparse", False)
+    kw.pop("copy", None)
+    if kw:
+        raise TypeError(f"meshgrid() got an unexpected keyword argument '{list(kw)[0]}'")
     out = []
+    if sparse:
+        # open grids: every output keeps only its own axis, all other dimensions have length 1
+        for i, a in enumerate(arrs):
+            shp = [1] * n
+            shp[i] = a.size
+            v = a.reshape(shp)
+            if indexing == "xy" and n >= 2:
+                v = v.transpose([1, 0] + list(range(2, n)))
+            out.append(v.copy())
+        return tuple(out)
     for i, a in enumerate(arrs):
         st = [0] * n
         st[i] = 1
